@@ -202,6 +202,7 @@ def check(prop, tier, seed, jobs, worlds=None, wall=None, keep=False):
             "stream_profiles": collections.Counter()}
     sigs = set()
     nontrivial = set()
+    abort_samples = []
     for sm in summaries:
         su = sm["summary"]
         for k in ("n_exec", "n_recheck", "late_diffs", "aborted", "short_reads", "exec_digests"):
@@ -222,6 +223,7 @@ def check(prop, tier, seed, jobs, worlds=None, wall=None, keep=False):
         for k, v in su.get("stream_profiles", {}).items():
             hist["stream_profiles"][str(k)] += v
         sigs.update(su.get("signatures", []))
+        abort_samples.extend(su.get("abort_samples", []))
     violations = []
     samples = []
     worlds_done = set()
@@ -342,7 +344,8 @@ def check(prop, tier, seed, jobs, worlds=None, wall=None, keep=False):
             "distinct_hash_seeds": len(set(hs)), "hash_seeds": hs,
             "worlds_under_two_hash_seeds": int(agg.get("worlds_under_two_hash_seeds", 0)),
             "distinct_execution_digests": int(agg["exec_digests"]),
-            "aborted_executions": int(agg["aborted"]), "late_visibility_differences": int(agg["late_diffs"]),
+            "aborted_executions": int(agg["aborted"]), "abort_samples": abort_samples[:3],
+            "late_visibility_differences": int(agg["late_diffs"]),
             "reach_probes": dict(probes), "clause_evaluations": dict(clauses),
             "known_findings_met": {f"{a}|{b}": n for (a, b), (k, n, v) in known_hits.items()},
             "real_components": REAL, "stub_components": STUB,
